@@ -142,12 +142,15 @@ Proof.
   - replace (/ 2) with (d / 2 * / d) by (field; lra). apply Rmult_le_compat_r; lra.
 Qed.
 
+(* the same branching as the repaired mf_s / mf_z: boundaries first, then the midpoint *)
 Definition s_defined (x a b : R) : Prop :=
-  if Rltb ((a + b) / 2) x then (if Rltb x b then b - a <> 0 /\ pow_defined ((b - x) / (b - a)) 2 else True)
-  else (if Rltb a x then b - a <> 0 /\ pow_defined ((x - a) / (b - a)) 2 else True).
+  if Rleb x a then True else if Rleb b x then True
+  else if Rltb ((a + b) / 2) x then b - a <> 0 /\ pow_defined ((b - x) / (b - a)) 2
+  else b - a <> 0 /\ pow_defined ((x - a) / (b - a)) 2.
 Definition z_defined (x a b : R) : Prop :=
-  if Rltb x ((a + b) / 2) then (if Rltb a x then b - a <> 0 /\ pow_defined ((x - a) / (b - a)) 2 else True)
-  else (if Rltb x b then b - a <> 0 /\ pow_defined ((b - x) / (b - a)) 2 else True).
+  if Rleb b x then True else if Rleb x a then True
+  else if Rltb x ((a + b) / 2) then b - a <> 0 /\ pow_defined ((x - a) / (b - a)) 2
+  else b - a <> 0 /\ pow_defined ((b - x) / (b - a)) 2.
 
 Lemma s_defined_all x a b : s_defined x a b.
 Proof. unfold s_defined. rcases; try exact I; (split; [lra|apply pow_defined_2]). Qed.
@@ -186,6 +189,11 @@ Proof. intros H. su; try lra. replace x with ((a + b) / 2) by lra. field. lra. Q
 (* ... and NOT at the single point x = a = b of a zero-width pair (outside the property's quantifier: S and Z need a < b) *)
 Lemma s_z_degenerate a : mf_s RO a a a + mf_z RO a a a = 0.
 Proof. su; lra. Qed.
+
+(* the bodies as found (midpoint tested first) compute the same real function for every ordered pair a <= b; they differ
+   in binary64, where the computed midpoint can coincide with an end point (MfRound.v: b64_sz_as_found_refuted) *)
+Lemma sz_orig_agrees x a b : a <= b -> mf_s_orig RO x a b = mf_s RO x a b /\ mf_z_orig RO x a b = mf_z RO x a b.
+Proof. intros H. unfold mf_s_orig, mf_z_orig. su; split; lra. Qed.
 
 Lemma s_monotone x y a b : a < b -> x <= y -> mf_s RO x a b <= mf_s RO y a b.
 Proof.
